@@ -4,6 +4,7 @@ import (
 	"bufio"
 	"bytes"
 	"compress/gzip"
+	"encoding/json"
 	"fmt"
 	"io"
 	"math/rand"
@@ -11,6 +12,7 @@ import (
 	"path/filepath"
 	"runtime/debug"
 	"runtime/pprof"
+	"sort"
 	"strings"
 	"sync"
 	"time"
@@ -102,6 +104,7 @@ var c02Hand = map[string][]string{
 		"#NEXUS\nBEGIN CHARACTERS;\nDIMENSIONS NCHAR=6;\nFORMAT DATATYPE=PROTEIN GAP=- MISSING=? INTERLEAVE;\nMATRIX\na ACD\nb AC-\n\na EFG\nb E?G\n;\nEND;\n",
 		"#NEXUS\r\nBEGIN TREES;\r\nTREE t = (a,b,c);\r\nEND;\r\n", "#NEXUS\rBEGIN TREES;\rTREE t = (a,b,c);\rEND;\r",
 		"#NEXUS\nBEGIN TREES;\nTREE t = (a,b,c);\nTREE u = (A);\nEND;\n", "#NEXUS\nBEGIN DATA;\nFORMAT MISSING=", "#NEXUS\nBEGIN DATA;\nFORMAT GAP=;\nEND;", "#NEXUS\n[unterminated",
+		"#NEXUS\nBEGIN TAXA;\nDIMENSIONS NTAX=3;\nTAXLABELS a b c;\nEND;\nBEGIN DATA;\nDIMENSIONS NTAX=3 NCHAR=4;\nFORMAT DATATYPE=DNA GAP=- MISSING=?;\nMATRIX\na ACGT\nb AC-T\nc A?GT\n;\nEND;\nBEGIN TREES;\nTREE t = (a,b,c);\nEND;\n",
 		"#NEXUS\nBEGIN TAXA;\nDIMENSIONS NTAX=", "#NEXUS\nBEGIN TREES;\nTRANSLATE 0 a, 1", "#nexus\nbegin trees;\ntree t=(a,b,c);\nend;\n",
 	},
 	"phyloxml": {
@@ -248,7 +251,7 @@ func c02Mutate(r *rand.Rand, b []byte, f string) ([]byte, string) {
 	}
 	bounds := c02Bounds(b)
 	at := func() int { return bounds[r.Intn(len(bounds))] }
-	switch r.Intn(18) {
+	switch r.Intn(20) {
 	case 0:
 		return b[:at()], "truncate@token"
 	case 1:
@@ -353,6 +356,80 @@ func c02Mutate(r *rand.Rand, b []byte, f string) ([]byte, string) {
 	case 16: // a number made strange
 		p := at()
 		return append(b[:p:p], append([]byte(gen.Pick(r, "1e999", "-", "+", "1e", "0x10", "NaN", "Inf", "1/", "/2", "1//2", "99999999999999999999")), b[p:]...)...), "number"
+	case 17: // the value after '=', ':' or '>' replaced by a hostile one (sizes, counts, numbers, nothing)
+		var ps []int
+		for i, ch := range b {
+			if ch == '=' || ch == ':' || ch == '>' {
+				ps = append(ps, i)
+			}
+		}
+		if len(ps) == 0 {
+			return append(b, []byte("=-4")...), "value-replaced"
+		}
+		p := ps[r.Intn(len(ps))] + 1
+		q := p
+		for q < len(b) && !strings.ContainsRune(" \n\t;,)<}]", rune(b[q])) {
+			q++
+		}
+		v := gen.Pick(r, "-4", "-1", "0", "9223372036854775807", "99999999999999999999", "4294967296", "1000000000", "null", "\"\"", "[]", "{}", "true", "1e308", "-0")
+		return append(b[:p:p], append([]byte(v), b[q:]...)...), "value-replaced"
+	case 18: // JSON documents: one value anywhere in the document replaced, the document staying well-formed JSON
+		var doc interface{}
+		if json.Unmarshal(b, &doc) != nil {
+			p := at()
+			return append(b[:p:p], append([]byte("null,"), b[p:]...)...), "json-null-inserted"
+		}
+		var paths []string
+		setters := map[string]func(interface{}){}
+		var walk2 func(v interface{}, path string)
+		walk2 = func(v interface{}, path string) {
+			switch x := v.(type) {
+			case map[string]interface{}:
+				for k := range x {
+					k := k
+					pp := path + "/" + k
+					paths = append(paths, pp)
+					setters[pp] = func(nv interface{}) { x[k] = nv }
+					walk2(x[k], pp)
+				}
+			case []interface{}:
+				for i := range x {
+					i := i
+					pp := fmt.Sprintf("%s/%d", path, i)
+					paths = append(paths, pp)
+					setters[pp] = func(nv interface{}) { x[i] = nv }
+					walk2(x[i], pp)
+				}
+			}
+		}
+		walk2(doc, "")
+		if len(paths) == 0 {
+			return []byte("null"), "json-value"
+		}
+		sort.Strings(paths) // map iteration order must not decide the case
+		var nv interface{}
+		switch r.Intn(9) {
+		case 0, 1, 2:
+			nv = nil
+		case 3:
+			nv = map[string]interface{}{}
+		case 4:
+			nv = []interface{}{}
+		case 5:
+			nv = []interface{}{nil, nil}
+		case 6:
+			nv = -1
+		case 7:
+			nv = ""
+		default:
+			nv = true
+		}
+		setters[paths[r.Intn(len(paths))]](nv)
+		out, err := json.Marshal(doc)
+		if err != nil {
+			return b, "json-value"
+		}
+		return out, "json-value"
 	default: // invalid UTF-8 / control bytes
 		p := at()
 		return append(b[:p:p], append([]byte(gen.Pick(r, "\xc3", "\xe2\x82", "\xf0\x9f", "\x00\x00", "\x1b", "\xef\xbb\xbf", "\xff\xfe")), b[p:]...)...), "bad-utf8"
